@@ -120,6 +120,18 @@ func RunCheck(prop, tier string, procs int, budget time.Duration) int {
 			RunGenBFS(rep, pool, g.kind, g.cfg, d, tierN, deadline)
 		}
 	}
+	if prop == "C10" {
+		known = true
+		rep.Rule = "exhaustive crash-point enumeration on the real implementation: a child process runs a write history on an on-disk bucket and is killed (SIGKILL) on entry to the N-th write-class system call (pwrite/write/ftruncate/fsync/fdatasync/unlink/rename under the bucket directory), for every N; a fresh process reopens the directory and its complete contents are compared with the states recorded after each acknowledged call; a case is one crash point"
+		rep.Assumptions = append(rep.Assumptions, "process-kill model (no power loss: data written before the kill reaches the file system)", "single-threaded histories so that system call N is the same operation in every run (checked: a divergent acknowledgement count is reported)")
+		hs := []string{"H1-kv", "H3-multistep"}
+		if !quick {
+			hs = []string{"H1-kv", "H2-xattrs", "H3-multistep", "H4-collections-views"}
+		}
+		for _, hname := range hs {
+			RunCrash(rep, hname, procs, deadline)
+		}
+	}
 	if !known {
 		fmt.Printf("no check registered for %s\n", prop)
 		return 2
@@ -177,6 +189,9 @@ func Replay(w Witness) int {
 	}
 	if kind.Kind == "gen" {
 		return ReplayGen(w)
+	}
+	if kind.Kind == "crash" {
+		return ReplayCrash(w)
 	}
 	fmt.Println("unknown replay kind", kind.Kind)
 	return 2
